@@ -27,10 +27,11 @@ impl DateTime {
         let atomic_reference_node = node.children().find(|n| {
             xml::has_name(n, "isAtomicClockReferenced") && n.attribute("type") == Some("Integer")
         });
+        // The flag is optional, a date time without it is not referenced by an atomic clock
         let atomic_reference = if let Some(node) = atomic_reference_node {
             xml::text(&node).unwrap_or_default().trim() == "1"
         } else {
-            return Ok(None);
+            false
         };
 
         Ok(Some(Self {
